@@ -354,6 +354,8 @@ Definition model_class (kind : Z) : Z :=
   | 35 => 6                   (* array iteration built-ins with a non-callable *)
   | 36 => 6                   (* [[DefineOwnProperty]] rejected with throw *)
   | 37 => 5                   (* new RegExp: pattern rejected by regexp.Compile *)
+  | 38 => 3                   (* [[DefineOwnProperty]] of an array's length with an invalid value, also when the
+                                 length is not writable: arrayUint32 runs before the writable test *)
   | 41 => 1 | 42 => 2 | 43 => 3 | 44 => 4 | 45 => 5 | 46 => 6 | 47 => 7   (* new XError(msg) *)
   | 51 => 1 | 52 => 2 | 53 => 3 | 54 => 4 | 55 => 5 | 56 => 6 | 57 => 7   (* XError(msg) *)
   | _ => 0
@@ -363,7 +365,7 @@ Definition model_class (kind : Z) : Z :=
    panicRangeError() with no arguments *)
 Definition model_msg_nonempty (kind : Z) : bool :=
   match kind with
-  | 12 | 13 => false
+  | 12 | 13 | 38 => false
   | _ => true
   end.
 
@@ -410,6 +412,7 @@ Definition model_throws (fn : Z) (a : argval) : bool :=
   | 4 => match a with AUndef => false | _ => ext_lt i 1 || ext_gt i 21 end
   | 5 => match a with AUndef => false | _ => negb (is_array_length a) end
   | 6 => negb (is_array_length a)
+  | 7 => negb (is_array_length a)     (* Object.defineProperty(frozen array, "length", {value: v}): arrayUint32 first *)
   | _ => false
   end.
 
